@@ -1251,7 +1251,80 @@ fn small_oracle(tier: &str, rep: &mut OracleReport) {
     rep.hit("exhaustive_short_strings");
 }
 
+/// atom_eq ⇔ byte equality on *near-miss* pairs in every combination of representations (inline, heap
+/// bytes, substring view): same low bits with a different top byte, same value with redundant leading
+/// bytes, a prefix / suffix of the other, sign variants, equal bytes
+fn oracle_atom_eq(rng: &mut Rng, n: usize) -> OracleReport {
+    let mut rep = OracleReport::default();
+    // the three ways to hold `b`: new_atom (inline when possible), laundered through concat (heap), view
+    let make = |a: &mut Allocator, b: &[u8], how: u8| -> NodePtr {
+        match how {
+            0 => a.new_atom(b).unwrap(),
+            1 => {
+                let k = b.len() / 2;
+                let x = a.new_atom(&b[..k]).unwrap();
+                let y = a.new_atom(&b[k..]).unwrap();
+                a.new_concat(b.len(), &[x, y]).unwrap()
+            }
+            _ => {
+                let mut padded = vec![0xeeu8, 0xdd];
+                padded.extend_from_slice(b);
+                padded.extend_from_slice(&[0xcc, 0xbb, 0xaa, 0x99, 0x88]);
+                let big = a.new_atom(&padded).unwrap();
+                a.new_substr(big, 2, 2 + b.len() as u32).unwrap()
+            }
+        }
+    };
+    for i in 0..n.max(200) {
+        let len = *rng.pick(&[0usize, 1, 2, 3, 4, 4, 4, 5, 8, 33]);
+        let mut x = rng.bytes(len);
+        if len > 0 && rng.chance(1, 2) {
+            x[0] = *rng.pick(&[0x00u8, 0x01, 0x03, 0x04, 0x7f, 0x80, 0xff]);
+        }
+        let mut ys: Vec<Vec<u8>> = vec![x.clone()];
+        if len > 0 {
+            for t in [0x04u8, 0x40, 0x80, 0xfc] {
+                let mut y = x.clone();
+                y[0] ^= t;
+                ys.push(y); // same low bits, different top byte
+            }
+            let mut y = vec![0u8];
+            y.extend_from_slice(&x);
+            ys.push(y); // same value, one more leading zero
+            ys.push(x[1..].to_vec()); // suffix
+            ys.push(x[..len - 1].to_vec()); // prefix
+            let mut y = x.clone();
+            y[len - 1] ^= 1;
+            ys.push(y);
+        }
+        let mut a = Allocator::new();
+        for y in &ys {
+            for hx in 0..3u8 {
+                for hy in 0..3u8 {
+                    let p = make(&mut a, &x, hx);
+                    let q = make(&mut a, y, hy);
+                    rep.evaluations += 1;
+                    rep.nontrivial += 1;
+                    let same = x == *y;
+                    let (r1, r2) = (a.atom_eq(p, q), a.atom_eq(q, p));
+                    if r1 != same || r2 != same {
+                        rep.fail("atom_eq_iff", format!("atom_eq({} as {}, {} as {}) = {}/{} but byte equality is {}", hex::encode(&x), ["new_atom", "concat", "substr"][hx as usize], hex::encode(y), ["new_atom", "concat", "substr"][hy as usize], r1, r2, same));
+                    }
+                }
+            }
+        }
+        if i < 2 {
+            rep.sample(format!("x={} against {} near misses x 9 representation pairs", hex::encode(&x), ys.len()));
+        }
+    }
+    rep.hit("near-miss-pairs");
+    rep
+}
+
 pub fn oracle(name: &str, rng: &mut Rng, n: usize, tier: &str) -> OracleReport {
+    if name == "alloc_atom_eq" {
+        return oracle_atom_eq(rng, n);
+    }
     let mut rep = OracleReport::default();
     let mut seen = std::collections::HashSet::new();
     let mut known_seen = 0usize;
